@@ -1721,3 +1721,9 @@ MUTANTS += [
  dict(id='R16-remove-returns-when-writer-done', props=['C11'], expect='R-REMOVE-REACHES-CLEANUP/remove-cleanup/',
       edits=[(HUB, '\t\tselect {\n\t\tcase <-pc.done:\n\t\tcase <-time.After(1 * time.Second):\n\t\t\t// Timeout - continue anyway\n', '\t\tselect {\n\t\tcase <-pc.done:\n\t\tcase <-time.After(1 * time.Second):\n\t\t\t// Timeout - continue anyway\n\t\t\tif sessionID == "" {\n\t\t\t\treturn\n\t\t\t}\n')]),
 ]
+MUTANTS += [
+ dict(id='R16-benign-leaver-status-nested-under-state-test', props=['C12'], expect='SILENT',
+      edits=[(SS, '\tif state != nil && state.Status != ReceiverStatusDone {\n\t\tstate.Status = ReceiverStatusFailed\n\t\tstate.LastSeen = s.now()\n\t}\n', '\tif state != nil {\n\t\tif state.Status != ReceiverStatusDone {\n\t\t\tstate.Status = ReceiverStatusFailed\n\t\t\tstate.LastSeen = s.now()\n\t\t}\n\t}\n')]),
+ dict(id='R16-benign-classifier-reused', props=['C03'], expect='SILENT',
+      edits=[('internal/scheduler/hybrid.go', '\t\tif s.effectiveClass(meta, now) == class {\n\t\t\tkeys = append(keys, key)\n\t\t}\n', '\t\tif meta.LastScheduledAt.IsZero() && class == s.classForRemaining(s.remainingForMeta(meta)) {\n\t\t\tkeys = append(keys, key)\n\t\t\tcontinue\n\t\t}\n\t\tif s.effectiveClass(meta, now) == class {\n\t\t\tkeys = append(keys, key)\n\t\t}\n')]),
+]
